@@ -24,14 +24,15 @@ INFO = dict(
               'more than one live underlying sink, concurrent first requests share one CreateSink/Open, every request reaches the sink that is '
               'current, after a failure the next request creates exactly one fresh sink; histories of Open / Close by several holders, requests and failures '
               'against a holder counter: the first Open connects, later Opens create nothing, the connection is kept while a holder is left and closed (once) by the last Close.',
-  bounds={'quick': 'ref count symbolic in [0, 10^6]; histories k <= 6; an underlying Close() that yields while another holder opens at a symbolic instant; sharing key stable after a fault; singleton: 2 requests + 1 fault; singleton Open/Close/request/failure histories by several holders k <= 5', 'thorough': 'histories k <= 12; singleton: 3 requests + 1 fault; singleton holder histories k <= 8'},
+  bounds={'quick': 'ref count symbolic in [0, 10^6]; histories k <= 6; an underlying Close() that yields while another holder opens at a symbolic instant; sharing key stable after a fault; singleton: 2 requests + 1 fault; singleton Open/Close/request/failure/reply histories by several holders k <= 6', 'thorough': 'histories k <= 12; singleton: 3 requests + 1 fault; singleton holder histories k <= 8'},
   outside=['more than 3 concurrent requests on the singleton pool', 'Open() of the underlying transport failing (covered with the real transports in C08/C09)'],
   stubs=['fake underlying sinks recording Open/Close/CreateSink (3.12)', 'virtual loop (3.1)'],
   assumptions=['A1, A3'],
 )
 EXPECT_COVERS = ['shared-fault-then-same-key', 'refcount-open-during-close', 'refcount-first-open', 'refcount-surplus-close', 'refcount-last-close', 'shared-same-key', 'shared-different-key',
                  'singleton-concurrent-first', 'singleton-replaced-after-failure', 'singleton-first-open', 'singleton-second-holder-open',
-                 'singleton-last-holder-close', 'singleton-close-with-holders-left', 'singleton-request-replaces-failed']
+                 'singleton-last-holder-close', 'singleton-close-with-holders-left', 'singleton-request-replaces-failed',
+                 'singleton-late-reply-from-replaced-connection']
 
 
 class Under(object):
@@ -67,8 +68,8 @@ def jobs(tier):
         dict(name='shared', op='shared', cost=5),
         dict(name='refcount-yielding-close', op='rc-yield', cost=50),
         dict(name='singleton-r2', op='singleton', n=2, cost=500, shards=8, shard_depth=4)]
-  kh = 5 if tier == 'quick' else 8
-  js.append(dict(name='singleton-holders-k%d' % kh, op='singleton-holders', k=kh, cost=4 ** kh, shards=8 if kh <= 5 else 64, shard_depth=6))
+  kh = 6 if tier == 'quick' else 8
+  js.append(dict(name='singleton-holders-k%d' % kh, op='singleton-holders', k=kh, cost=5 ** kh, shards=8 if kh <= 5 else 64, shard_depth=6))
   if tier != 'quick':
     js.append(dict(name='singleton-r3', op='singleton', n=3, cost=20000, shards=32, shard_depth=6))
   return js
@@ -187,10 +188,10 @@ def make_body(job):
           x = Under(None); created.append(x); return x
         sink_class = Under
       pool = SingletonPoolSink(TP(), None, {SinkProperties.Endpoint: Ep('h', 1), SinkProperties.Label: 'x'})
-      holders = 0
+      holders = 0; unanswered = []
       def live(): return [x for x in created if not x.is_closed]
       for i in range(job['k']):
-        o = choose('op%d' % i, 4)
+        o = choose('op%d' % i, 5)
         n_created = len(created); before = live()
         if o == 0:
           ar = pool.Open()
@@ -221,15 +222,26 @@ def make_body(job):
           pool.AsyncProcessRequest(st, MethodCallMessage(None, 'm', (), {}), None, None)
           for _ in range(3): gevent.sleep(0)
           served = [x for x in created if any(r[1] is st for r in x.reqs)]
+          if served: unanswered.append((st, t, served[0]))
           check('holders.request-served-by-live-connection', len(served) == 1 and served[0] in live())
           if before: check('holders.request-shares-connection', len(created) == n_created and served == before)
           else:
             cover('singleton-request-replaces-failed')
             check('holders.request-replaces-failed-connection', len(created) == n_created + 1)
-        else:
+        elif o == 3:
           if not before: check('holders.at-most-one-live', len(live()) <= 1); continue
           before[0].Fault()
           for _ in range(3): gevent.sleep(0)
+        else:
+          # the reply (or the failure) of the oldest unanswered request comes back up its sink stack, possibly from a
+          # connection that has failed and been replaced meanwhile
+          if not unanswered: check('holders.at-most-one-live', len(live()) <= 1); continue
+          st, t, via = unanswered.pop(0)
+          if via.is_closed and before and via is not before[0]: cover('singleton-late-reply-from-replaced-connection')
+          st.AsyncProcessResponseMessage(MethodReturnMessage('r'))
+          for _ in range(3): gevent.sleep(0)
+          check('holders.reply-delivered-once', len(t.got) == 1)
+          check('holders.reply-keeps-current-connection', live() == before and all(x.closes == 0 for x in before))
         check('holders.at-most-one-live', len(live()) <= 1)
         check('holders.closed-at-most-once', all(x.closes <= 1 for x in created))
       check('no-greenlet-error', not vtime.ERRORS)
